@@ -119,6 +119,11 @@ func ExtractEncoder(fn *ssa.Function, msgParam string) *CodecTable {
 			return
 		}
 		k, isK := ConstInt(ia.Index)
+		if base, okB := sliceBase(ia.X); okB {
+			k += base // a store through a constant sub-slice of the buffer (helper given b[lo:hi])
+		} else {
+			isK = false
+		}
 		if !isK {
 			// loop zero fill: index phi [lo, +1], value const 0
 			if z, ok := ConstInt(st.Val); ok && z == 0 {
@@ -371,7 +376,9 @@ func orTerms(v ssa.Value) ([][2]int64, bool) {
 		if x.Op == token.MUL {
 			if ia, ok := x.X.(*ssa.IndexAddr); ok && isByteBuf(ia.X.Type()) {
 				if k, isK := ConstInt(ia.Index); isK {
-					return [][2]int64{{k, 0}}, true
+					if base, okB := sliceBase(ia.X); okB {
+						return [][2]int64{{k + base, 0}}, true
+					}
 				}
 			}
 		}
@@ -444,4 +451,25 @@ func FieldWidth(t types.Type, path string) int {
 		}
 	}
 	return 0
+}
+
+// sliceBase: the constant offset of a byte buffer value inside the buffer it was sliced from
+// (b[lo:hi] with constant lo, nested); ok=false for a non-constant lower bound.
+func sliceBase(v ssa.Value) (int64, bool) {
+	var base int64
+	for i := 0; i < 6; i++ {
+		sl, ok := v.(*ssa.Slice)
+		if !ok {
+			return base, true
+		}
+		if sl.Low != nil {
+			lo, isK := ConstInt(sl.Low)
+			if !isK {
+				return 0, false
+			}
+			base += lo
+		}
+		v = sl.X
+	}
+	return base, true
 }
